@@ -36,7 +36,10 @@ class ChainFinder(object):
                 h = self.parent_lookup.get(h)
                 if h is None:
                     break
-                new_hashes.discard(h)
+                if h not in self.descendents_by_top:
+                    # a new hash that orphan trees are waiting for must still
+                    # be processed on its own, so those trees get extended
+                    new_hashes.discard(h)
                 preceding_path = self.trees_from_bottom.get(h)
                 if preceding_path:
                     del self.trees_from_bottom[h]
